@@ -269,6 +269,63 @@ def same_loader_case(ctx, drv):
         trees.rmtree(root)
 
 
+def cli_subdir_case(ctx):
+    """`gemato update <root>/<dir>` through the command line, for ordinary and for dot-directories: whatever lies outside the
+    directory asked for - the TIMESTAMP included - stays as it is"""
+    import logging
+    import gemato.cli
+    rng = ctx.rng
+    root = common.scratch_dir('gv.c10cli.')
+    try:
+        sub = rng.choice(['.config', '.x', 'conf', 'sub dir', '..data', '.'])
+        names = ['other', 'zz']
+        for d in names + ([sub] if sub != '.' else []):
+            os.makedirs(os.path.join(root, d), exist_ok=True)
+        open(os.path.join(root, 'a'), 'wb').write(b'a')
+        open(os.path.join(root, 'other', 'changed'), 'wb').write(b'one')
+        open(os.path.join(root, 'other', 'gone'), 'wb').write(b'gone')
+        open(os.path.join(root, 'zz', 'same'), 'wb').write(b'same')
+        if sub != '.':
+            open(os.path.join(root, sub, 'inside'), 'wb').write(b'inside')
+
+        def main(argv):
+            logging.disable(logging.CRITICAL)
+            try:
+                with treeimpl.time_limit(30):
+                    return gemato.cli.main(['gemato'] + argv)
+            except SystemExit as e:
+                return e.code
+            except Exception as e:
+                return 'exc:' + type(e).__name__
+            finally:
+                logging.disable(logging.NOTSET)
+        rc0 = main(['create', '-t', '-H', 'SHA1', root])
+        if rc0 != 0:
+            ctx.count('cli-subdir:create-failed')
+            return
+        # the rest of the tree goes stale meanwhile
+        open(os.path.join(root, 'other', 'changed'), 'wb').write(b'two!')
+        os.unlink(os.path.join(root, 'other', 'gone'))
+        open(os.path.join(root, 'other', 'new'), 'wb').write(b'new')
+        if sub != '.':
+            open(os.path.join(root, sub, 'inside'), 'ab').write(b'+')
+        before = updimpl.snapshot(root)
+        lines_before = manifest_lines(root)
+        rc = main(['update', '-H', 'SHA1', os.path.join(root, sub)])
+        after = updimpl.snapshot(root)
+        scen = {'op': 'cli-update-of-a-sub-directory', 'directory': sub, 'exit': rc}
+        ctx.count('op:cli-update-of-a-sub-directory')
+        changed = sorted(p for p in set(before) | set(after) if before.get(p) != after.get(p))
+        ctx.case(json.dumps([scen]), True, dict(scen, changed_files=changed))
+        foreign = [p for p in changed if not os.path.basename(p).startswith('Manifest')]
+        if foreign:
+            ctx.fail('non-manifest-file-touched', scen, str(foreign))
+        if rc == 0 and sub != '.':
+            check_preserved(ctx, scen, root, lines_before, os.path.normpath(sub))
+    finally:
+        trees.rmtree(root)
+
+
 def path_case(ctx, drv, judge_internal=False, label='update-entry-for-path'):
     """ManifestRecursiveLoader.update_entry_for_path(path, new_entry_type, hashes) + save_manifests: the single-path update of
     the library API, on a path listed once, several times (in one Manifest and across Manifests), listed but gone, or not
@@ -407,6 +464,8 @@ def run(ctx):
             path_case(ctx, drv)
         for i in range(300 if ctx.tier == 'quick' else 3000):
             same_loader_case(ctx, drv)
+        for i in range(40 if ctx.tier == 'quick' else 400):
+            cli_subdir_case(ctx)
     finally:
         drv.close()
 
